@@ -108,6 +108,33 @@ def thenListJ (db : Db) (q : Simple) (xs : List Rat) : Option Sym → List (Stri
         ("M", ratJ (magList db q.cat q.unit t xs ys))])]
     | .error e => [("then", errJ e)]
 
+/-- a cell `{"cat": sym, "unit": sym, "exp": int}` of a composing mapping -/
+def cellOfJson (v : Json) : Except String MapCell := do
+  pure ⟨← getSym v "cat", ← getSym v "unit", ← getInt v "exp"⟩
+
+def pairOfJson (v : Json) : Except String (Sym × Int) := do
+  pure (← getSym v "unit", ← getInt v "exp")
+
+/-- the `category` argument of the parallel-lists form: `null`, a symbol, or a list of symbols -/
+def getCatArg (j : Json) (k : String) : Except String CatArg :=
+  match j.getObjVal? k with
+  | .ok .null => .ok .none
+  | .ok (.str s) => match s.toNat? with
+    | some n => .ok (.str n)
+    | none => .error s!"field {k} is not a symbol code"
+  | .ok (.arr a) => do
+    let l ← a.toList.mapM symOfJson
+    pure (.list l)
+  | _ => .error s!"missing field {k}"
+
+def cellJ (c : MapCell) : Json := Json.arr #[symJ c.cat, symJ c.unit, .str (toString c.exp)]
+
+def obtainedJ : Except ErrKind Obtained → Json
+  | .ok (.simple q) => Json.mkObj [("ok", Json.mkObj ([("kind", .str "simple")] ++ simpleJ q))]
+  | .ok (.derived cells) => Json.mkObj [("ok", Json.mkObj [("kind", .str "derived"),
+      ("cells", Json.arr (cells.map cellJ).toArray)])]
+  | .error e => errJ e
+
 def handle (j : Json) : Except String Json := do
   let op ← getStr j "op"
   match op with
@@ -139,6 +166,15 @@ def handle (j : Json) : Except String Json := do
     match db.obtainQuantity (← getSym j "unit") (← getOptSym j "cat") with
     | .ok q => pure (Json.mkObj [("ok", Json.mkObj (simpleJ q))])
     | .error e => pure (errJ e)
+  | "obtainmap" =>
+    let db ← dbOf (← getStr j "db")
+    let shape ← getStr j "shape"
+    if shape == "lists" then
+      let units ← (← getArr j "cells").toList.mapM pairOfJson
+      pure (obtainedJ (db.obtainFromLists units (← getCatArg j "catarg")))
+    else
+      let cells ← (← getArr j "cells").toList.mapM cellOfJson
+      pure (obtainedJ (db.obtainFromMapping (shape == "odict") cells))
   | "getvalue" =>
     let db ← dbOf (← getStr j "db")
     let x ← getRat j "x"
